@@ -3,6 +3,11 @@
 
 package leveldb
 
+import (
+	"sync/atomic"
+	"time"
+)
+
 // Exports for the external verification harness (/verif, property C11): a dump of an open transaction's
 // private state. Compiled only with -tags verif; add-only.
 
@@ -70,4 +75,51 @@ func VerifTxnSeq(tr *Transaction) uint64 {
 	tr.lk.RLock()
 	defer tr.lk.RUnlock()
 	return tr.seq
+}
+
+// VerifWaitIdleDB is VerifWaitIdle for processes that run several DBs: the busy counter of the hook points is
+// process-wide, so a job stuck in another DB would keep every DB "busy". This variant judges this DB alone
+// (no frozen memdb, no table compaction needed, a needed compaction being what a running one still shows),
+// and asks for a longer stable period while the process-wide counter is not zero.
+func VerifWaitIdleDB(db *DB, timeout time.Duration) bool {
+	deadline := time.Now().Add(timeout)
+	stable := 0
+	for time.Now().Before(deadline) {
+		if db.isClosed() {
+			return true
+		}
+		fm := db.getFrozenMem()
+		if fm != nil {
+			fm.decref()
+		}
+		if fm == nil && !db.tableNeedCompaction() {
+			stable++
+			need := 3
+			if atomic.LoadInt32(&verifBusy) != 0 {
+				need = 25
+			}
+			if stable >= need {
+				return true
+			}
+		} else {
+			stable = 0
+			if fm != nil {
+				db.compTrigger(db.mcompCmdC)
+			} else {
+				db.compTrigger(db.tcompCmdC)
+			}
+		}
+		time.Sleep(200 * time.Microsecond)
+	}
+	return false
+}
+
+// VerifCompCommitLocked reports whether the lock serialising manifest commits of compactions and
+// transactions is taken right now.
+func VerifCompCommitLocked(db *DB) bool {
+	if db.compCommitLk.TryLock() {
+		db.compCommitLk.Unlock()
+		return false
+	}
+	return true
 }
